@@ -151,12 +151,12 @@ class LoopMixin:
         names |= set(extra_names)
         kinds = getattr(loop, 'kinds', None) or {}
         spec = st.frame.spec
-        gnames = set(self.top_spec.ghost.keys()) if self.top_spec is not None else set()
+        gnames = (set(self.top_spec.ghost.keys()) - set(self.top_spec.ghost_frozen)) if self.top_spec is not None else set()
         tenv = st.frames[self.top_frame].env if self.top_frame in st.frames else {}
         for g in sorted(gnames):
             if g in tenv:
                 tenv[g] = self.havoc_value(st, tenv[g], g, kinds)
-        for n in sorted(names - gnames):
+        for n in sorted(names - gnames - (set(self.top_spec.ghost_frozen) if self.top_spec is not None else set())):
             v = st.lookup(n)
             if v is None:
                 if n in kinds:
